@@ -28,6 +28,16 @@ CHECKS['C01'] = dict(
          'matcher); reference semantics written from the documentation; cased non-ASCII code points excluded under '
          'IGNORECASE; !(..) compared only in the shapes the statement commits to.')
 
+CHECKS['C02'] = dict(
+    level='model_checking', engine='AUT', design='6 C02',
+    technique='explicit-state exploration of the product automaton (executed regex x segment-semantics reference x '
+              'path-domain tracker), exhaustive over generated path patterns up to a token budget',
+    text='For every generated path pattern (leaves a . * ** *** ? [ab] [!a] / // \\/ ****, extended groups, '
+         'separator-discipline probes) x up to 64 flag sets, every reachable product state is checked, deciding the '
+         'property for all paths of every length in the domain C02 speaks about; every state replayed on the API.',
+    note='Reference = segment semantics written from the statement; don\'t-care regions listed in the evidence '
+         'assumptions; CPython re._parser trusted and bound by per-state replay.')
+
 PENDING = {}
 
 
